@@ -34,6 +34,7 @@ let engines : (string * (z list -> (z list * z list) list -> verdict)) list = [
   ("health", chk_health);
   ("codec", chk_codec);
   ("mapelems", chk_mapelems);
+  ("decode", chk_decode);
 ]
 
 let () =
